@@ -152,10 +152,19 @@ def inline_new_helpers(parsed, ref):
             fams = {_family(c, bodies) for c, _ in ss}
             if len(ss) > MAX_SITES or _family(hid, bodies) in fams:
                 continue          # many users (a real shared function), or recursion
-            if len(ss) > 1 and any(bl['t']['k'] == 'call' and str(((bl['t'].get('f') or {}).get('decl') or (bl['t'].get('f') or {}).get('def') or '')).split('::')[-1] in ('read', 'write', 'lock')
-                                   and any(x in str((bl['t'].get('f') or {}).get('decl') or (bl['t'].get('f') or {}).get('def') or '') for x in ('RwLock', 'Mutex'))
-                                   for bl in h['blocks']):
-                continue          # a shared helper with a critical section of its own is a unit of locking: its callers are judged through it
+            def _locks_directly(body_):
+                for bl_ in body_['blocks']:
+                    t_ = bl_['t']
+                    if t_['k'] != 'call':
+                        continue
+                    f_ = t_.get('f') or {}
+                    nm_ = str(f_.get('decl') or f_.get('def') or f_.get('res') or '')
+                    if nm_.split('::')[-1] in ('read', 'write', 'lock') and any(x in nm_ for x in ('RwLock', 'Mutex')):
+                        return True
+                return False
+            if len(ss) > 1 and _locks_directly(h) and any(_locks_directly(bodies[c]) for c, _ in ss):
+                continue          # a shared helper with a critical section of its own, called from a function that locks too, is a unit of
+                                  # locking: spliced, its section and the caller's would read as one function taking the lock twice
             if new_cmds and h.get('public'):
                 continue          # API of a new command (see above)
             # the helper must not call itself
